@@ -246,6 +246,53 @@ func (w *elWorker) build() {
 		t := t
 		w.tx(fmt.Sprintf("optout(v%d,c%s)", t.v, t.cid), func(*elNode) sdk.Msg { return env.MsgOptOut(p.Vals[t.v], t.cid) }, w.judgeOptOut(t.v, t.cid))
 	}
+	for _, nn := range []uint32{50, 95} {
+		nn := nn
+		w.tx(fmt.Sprintf("gov:update(c%s,N=%d)", topID, nn), func(x *elNode) sdk.Msg {
+			ps, err := p.K.GetConsumerPowerShapingParameters(x.S.Ctx, topID)
+			if err != nil || ps.Top_N == nn || ps.Top_N == 0 {
+				return nil
+			}
+			ps.Top_N = nn
+			return &providertypes.MsgUpdateConsumer{Owner: p.GovAddr, ConsumerId: topID, PowerShapingParameters: &ps}
+		}, func(pre, post *elNode, err error) []V {
+			if err != nil {
+				return nil
+			}
+			// the threshold validators are held to is re-determined at once for the new N
+			sv, e := w.view(post.S.Ctx)
+			if e != nil {
+				return nil
+			}
+			want := refMinPowerTopN(sv.activePowers, nn)
+			got, found := p.K.GetMinimumPowerInTopN(post.S.Ctx, topID)
+			w.stats.Count("topn-changed")
+			if !found || got != want {
+				return []V{vf("C03", "threshold-after-topn-change", "consumer %s: Top-N changed to %d; stored threshold %d (found=%v), reference %d over active powers %v", topID, nn, got, found, want, sv.activePowers)}
+			}
+			return nil
+		})
+	}
+	capID := ""
+	for _, cn := range w.cons {
+		if cn.ps.ValidatorSetCap > 0 {
+			capID = cn.id
+		}
+	}
+	if capID != "" {
+		for _, vi := range []int{3, 1} {
+			vi := vi
+			w.tx(fmt.Sprintf("update(c%s,prio=[v%d])", capID, vi), func(x *elNode) sdk.Msg {
+				ps, err := p.K.GetConsumerPowerShapingParameters(x.S.Ctx, capID)
+				want := consAddrs(p, vi)
+				if err != nil || fmt.Sprint(ps.Prioritylist) == fmt.Sprint(want) {
+					return nil
+				}
+				ps.Prioritylist = want
+				return &providertypes.MsgUpdateConsumer{Owner: p.Users[0].Addr.String(), ConsumerId: capID, PowerShapingParameters: &ps}
+			}, nil)
+		}
+	}
 	w.tx("optin(v1,c0)", func(*elNode) sdk.Msg { return env.MsgOptIn(p.Vals[1], "0", nil) }, nil)
 	w.tx("optin(v4,c0)", func(x *elNode) sdk.Msg {
 		if !x.Created {
